@@ -42,7 +42,7 @@ func (g *c08Gen) root(store string) string {
 	return store
 }
 
-func shadowFromFacts(w *wiring, facts []string) c08Shadow {
+func c08ShadowFromFacts(w *wiring, facts []string) c08Shadow {
 	sh := c08Shadow{}
 	for _, s := range w.Stores {
 		if s.Parent == "" {
@@ -291,7 +291,7 @@ func (g *c08Gen) apply(op *hOp) {
 			return
 		}
 		for k, v := range op.F {
-			if !op.HasChk || containsStr(op.Checker, k) {
+			if !op.HasChk || c08Contains(op.Checker, k) {
 				e.f[k] = v
 			}
 		}
@@ -300,7 +300,7 @@ func (g *c08Gen) apply(op *hOp) {
 	}
 }
 
-func containsStr(xs []string, x string) bool {
+func c08Contains(xs []string, x string) bool {
 	for _, y := range xs {
 		if y == x {
 			return true
@@ -489,7 +489,7 @@ func (g *c08Gen) blindOp() hOp {
 }
 
 func (g *c08Gen) genTx(facts []string) *hTx {
-	g.sh = shadowFromFacts(g.w, facts)
+	g.sh = c08ShadowFromFacts(g.w, facts)
 	t := &hTx{Sys: g.r.chance(30)}
 	n := 1 + g.r.intn(3)
 	for i := 0; i < n; i++ {
